@@ -91,7 +91,7 @@ func (x *Exec) isPureExtern(key string, c *ssa.CallCommon) bool {
 			return true
 		}
 	}
-	if key == "error.Error" {
+	if key == "error.Error" || key == "ret:pure-extern-func-value" {
 		return true
 	}
 	return false
@@ -136,6 +136,9 @@ func (x *Exec) execCallWith(st *State, c *ssa.CallCommon, args []*Val, fnVal *Va
 		key = x.P.funcKey(fnVal.Clo.Fn)
 	}
 	fc := x.C.Funcs[key]
+	if fc == nil && fnVal != nil && fnVal.K == VScalar && x.pureFuncs[fnVal.T.String()] {
+		key = "ret:pure-extern-func-value"
+	}
 	allArgs := args
 	if c.IsInvoke() {
 		allArgs = append([]*Val{fnVal}, args...)
@@ -182,6 +185,23 @@ func (x *Exec) havocCall(st *State, key string, c *ssa.CallCommon, args []*Val, 
 	}
 	v := x.havocVal(rt, "ret."+shortKey(key))
 	x.assume(st, x.typeFacts(v, rt))
+	if pure {
+		// func values handed out by effect-free externals (context cancel funcs, ...) are effect-free on modelled state
+		var mark func(v *Val, t types.Type)
+		mark = func(v *Val, t types.Type) {
+			switch v.K {
+			case VScalar:
+				if _, ok := t.Underlying().(*types.Signature); ok {
+					x.pureFuncs[v.T.String()] = true
+				}
+			case VTuple:
+				for i, f := range v.F {
+					mark(f, t.(*types.Tuple).At(i).Type())
+				}
+			}
+		}
+		mark(v, rt)
+	}
 	return v
 }
 
